@@ -21,10 +21,11 @@ func init() {
 			{ID: "R10.4", Configs: "all", Run: ruleR10_4},
 			{ID: "R10.5", Configs: "all", Run: ruleR10_5},
 			{ID: "R10.6", Configs: "all", Run: ruleR10_6},
+			{ID: "R10.7", Configs: "all", Run: ruleR10_7},
 		},
 		Explanation: "Decides the block-framing discipline that makes a flushed prefix decodable, on every path of the two accelerated compressors in both dispatch arms: (R10.1) the bit buffer is padded to a byte boundary only inside the empty-stored-block writers (after their 3-bit header) or under the very value that was passed as the final-block flag to the header writer; " +
 			"(R10.2) every path that writes a block header reaches an end-of-block emission (the end-of-block token appended before the header, or an encoder call inside a loop that provably runs at least once); (R10.3) every success path of a compressor's Flush passes, in this order, the encoding of pending input, the empty-stored-block writer and a destination write of exactly buf.output[:buf.idx], and the API-level Flush methods reach it; " +
-			"(R10.4) Flush and Close pass constant true as the flush flag and every generate hands its flag (or true) to the match finder; (R10.5) the marker is 3 header bits, padding, 00 00 ff ff; (R10.6) the final flag is 5 vs 4 under the eos parameter and Compress/Flush pass false, Close true.",
+			"(R10.4) Flush and Close pass constant true as the flush flag and every generate hands its flag (or true) to the match finder; (R10.5) the marker is 3 header bits, padding, 00 00 ff ff; (R10.6) the final flag is 5 vs 4 under the eos parameter, Compress/Flush pass false, Close true, and the empty final stored block is written only under the final flag; (R10.7) in a block function that runs the match finder, every path on which the flush flag is true goes on to encode a block before it reports success (pending tokens are emitted even when no new input was consumed).",
 		NotDecided: []string{
 			"bit-exact content of Huffman-coded blocks and headers (arithmetic)",
 			"that the decoder reproduces the data (C01/C02)",
@@ -672,6 +673,20 @@ func ruleR10_6(p *Program, r *Report) {
 			}
 			return finalIdx[g]
 		}
+		// the empty final stored block is written only under the final flag
+		for _, g := range p.Funcs() {
+			if g.Signature.Recv() == nil || derefNamed(g.Signature.Recv().Type()) != tr.Named {
+				continue
+			}
+			for _, c := range allCalls(g) {
+				if !staticCalleeNamed(c, deflRel, "BitBuf", "writeFinalEmptyBlock") {
+					continue
+				}
+				j := find(g, 0)
+				ok := j >= 0 && assertedTrue(dominatingFacts(c), g.Params[j])
+				r.Check(ok, "R10.6", shortFn(g)+"|final empty block under final flag", p.InstrPos(c), "the empty final stored block is written only when the final flag is set", "writeFinalEmptyBlock is not dominated by the final flag being true: a Flush or Compress could terminate the stream")
+			}
+		}
 		want := map[string]bool{"Compress": false, "Flush": false, "Close": true}
 		for _, opn := range []string{"Compress", "Flush", "Close"} {
 			fn := tr.Ops[opn]
@@ -698,4 +713,88 @@ func ruleR10_6(p *Program, r *Report) {
 		}
 	}
 	_ = types.Typ
+}
+
+// R10.7: with flush requested, the block function always encodes (tokens may be pending from earlier Compress calls).
+func ruleR10_7(p *Program, r *Report) {
+	r.Expect("R10.7", 1)
+	n := 0
+	for _, tr := range p.CompressorTypes() {
+		for _, fn := range p.Funcs() {
+			if fn.Signature.Recv() == nil || derefNamed(fn.Signature.Recv().Type()) != tr.Named {
+				continue
+			}
+			for _, gc := range allCalls(fn) {
+				if !gc.Common().IsInvoke() || gc.Common().Method.Name() != "generate" {
+					continue
+				}
+				var flushPar *ssa.Parameter
+				for _, par := range fn.Params {
+					if gc.Common().Args[0] == ssa.Value(par) {
+						flushPar = par
+					}
+				}
+				if flushPar == nil {
+					continue
+				}
+				n++
+				key := shortFn(fn) + "|flush encodes"
+				isEncode := func(in ssa.Instruction) bool {
+					c, ok := in.(ssa.CallInstruction)
+					if !ok {
+						return false
+					}
+					f := c.Common().StaticCallee()
+					if f == nil || f.Blocks == nil {
+						return false
+					}
+					for _, o := range allCalls(f) {
+						if staticCalleeNamed(o, deflRel, "dynamicHeader", "writeTo") {
+							return true
+						}
+					}
+					return false
+				}
+				edgeOK := func(a, b *ssa.BasicBlock) bool {
+					br, ok := edgeCond(a, b)
+					if !ok {
+						return true
+					}
+					f, ok := branchFact(br)
+					if !ok || f.Y != nil {
+						return true
+					}
+					// follow only edges consistent with flush == true
+					if f.X == ssa.Value(flushPar) && f.Op == token.NEQ {
+						return false
+					}
+					return true
+				}
+				succ := func(in ssa.Instruction) bool {
+					ret, ok := in.(*ssa.Return)
+					if !ok {
+						return false
+					}
+					e := returnErr(ret)
+					return e == nil || p.mayBeNil(fn, e, ret)
+				}
+				barrier := func(in ssa.Instruction) bool {
+					if isEncode(in) {
+						return true
+					}
+					c, ok := in.(ssa.CallInstruction)
+					return ok && staticCalleeNamed(c, deflRel, "BitBuf", "writeFinalEmptyBlock")
+				}
+				found, hit, path := PathQuery{Target: succ, Barrier: barrier, EdgeOK: edgeOK}.Find(fn)
+				why := ""
+				if found {
+					why = "with flush requested the success return at " + p.InstrPos(hit) + " is reachable (blocks " + fmtInts(path) + ") without encoding a block: tokens left pending by earlier Compress calls stay unemitted although Flush/Close reports success"
+				}
+				r.Check(!found, "R10.7", key, p.InstrPos(gc), "when flush is requested the block function encodes a block on every success path", why)
+			}
+		}
+	}
+	if n == 0 {
+		r.Undecided("R10.7", "anchor", "-", "a block function that runs the match finder with a flush parameter", "not found")
+	}
 }
